@@ -38,6 +38,9 @@ FEATURES = {
     # two loops of one scope that both need an interrupt flag: the inner loop's last iteration takes `continue`, the outer
     # loop re-tests its own flag after the inner loop ran
     "nested-loop-flags": "for w_ in ['ab cd.', 'e f g!', 'hij']:\n    n_ = 0\n    for c_ in w_:\n        if not c_.isalpha():\n            continue\n        n_ += 1\n    if n_ > 4:\n        break\n    print(V, w_, n_)\nk_ = 0\nwhile k_ < 3:\n    k_ += 1\n    j_ = 0\n    while j_ < 2:\n        j_ += 1\n        if j_ == 2:\n            continue\n        print('inner', j_)\n    if k_ == 3:\n        continue\n    print(V, 'outer', k_)",
+    # two for loops of one scope, one inside the other, that BOTH break / return (two iterator wrappers alive at once; the outer
+    # break, the outer else and a return from the inner loop go through the outer one's wrapper)
+    "nested-for-breaks": "for a6_ in range(3):\n    for b6_ in range(3):\n        if b6_ == 1:\n            break\n        print(V, a6_, b6_)\n    else:\n        print('inner else')\n    if a6_ == 1:\n        break\nelse:\n    print('outer else')\nprint(a6_, b6_)\nfor c6_ in range(2):\n    for d6_ in range(2):\n        if d6_ > 5:\n            break\n    if c6_ > 5:\n        break\nelse:\n    print('outer else 2', V)\ndef fn6_(rows_):\n    for r6_ in rows_:\n        for e6_ in r6_:\n            if e6_ > 1:\n                return (r6_, e6_, V)\n    return None\nprint(fn6_([[0, 1], [2, 3], [4, 5]]))",
     # two functions on one nesting chain each own captured variables (two helper dictionaries alive at once)
     "two-owners": "def o9_(p_):\n    def m9_(n_):\n        lab_ = (V, p_, n_)\n        def s9_():\n            return lab_, p_\n        return s9_()\n    return m9_(2)\nprint(o9_(1))\ndef t9_():\n    tot_ = 0\n    def mid_(k_):\n        def inn_():\n            nonlocal tot_\n            tot_ += k_\n            return V\n        return inn_()\n    r_ = mid_(5)\n    return tot_, r_\nprint(t9_())\ndef rep_(times_):\n    def deco_(fn_):\n        def wrap_(x_):\n            return [fn_(x_) for _q in range(times_)]\n        return wrap_\n    return deco_\n@rep_(2)\ndef hello_(x_):\n    return (V, x_)\nprint(hello_('k'))",
     "nested-returns": "def o7_(n):\n    def i7_(m):\n        for q7_ in range(m):\n            if q7_ == 1:\n                return (V, q7_)\n        return None\n    while n:\n        n -= 1\n        if i7_(n):\n            return i7_(n)\n    return 'end'\nprint(o7_(3), o7_(1))",
@@ -67,7 +70,8 @@ def program(ident, role, feature):
     if role == "classname":
         return f"class {ident}:\n    a = 7\n" + body.replace("V", f"{ident}.a") + "\n"
     if role == "classattr":
-        if feature in ("globalstore", "closure", "class", "method", "comprehension-walrus", "nested-classes", "nested-returns", "two-owners"):
+        if feature in ("globalstore", "closure", "class", "method", "comprehension-walrus", "nested-classes", "nested-returns", "two-owners",
+                       "nested-for-breaks"):
             return None
         return "class C_:\n" + _ind(f"{ident} = 7\n" + body.replace("V", ident)) + "\n"
     if role == "alias":
